@@ -73,7 +73,7 @@ PROPS = {
     },
     "C06": {
         "lean": ["AriVerif.Props.C06"],
-        "gen": [],
+        "gen": ["Layouts"],
         "streams": [s_wire.stream_requests, s_wire.stream_meta],
         "trusted": [KERNEL, HARNESS, "Spec/Ari.lean (the conforming ARI request encoder) is hand-written from the protocol, "
                     "cross-checked with request literals of the repository's tests (examples in Props/C06.lean)",
@@ -87,8 +87,8 @@ PROPS = {
                 "the Metadata closures with scripted adapters; non-trivial = distinct (method, token list)",
     },
     "C09": {
-        "lean": ["AriVerif.Props.C09", "AriVerif.Props.C09S"],
-        "gen": [],
+        "lean": ["AriVerif.Props.C09", "AriVerif.Props.C09S", "AriVerif.Props.C06"],
+        "gen": ["Layouts"],
         "streams": [s_wire.stream_requests, s_wire.stream_meta, s_dispatch.stream],
         "trusted": [KERNEL, HARNESS, "request layouts hand-written (Requests.schemas), tied by the malformed-stream differential",
                     "modelled, not verified: the remoting_exception_on_parse decorator (every exception inside read_* becomes the "
